@@ -54,6 +54,12 @@ func (f *Frame) callExtern(v ssa.Value, fn *ssa.Function, argVals []ssa.Value, a
 		f.setResults(v, res)
 	case "errors.As":
 		f.externErrorsAs(v, argVals, args, pos)
+	case "errors.Is":
+		// a deterministic function of (err, target): false for a nil error against a non-nil target, true for the target itself
+		fn := f.enc.declFun("erris", []Sort{SIface, SIface}, SBool)
+		r := f.setVal(v, App(SBool, fn, args[0], args[1]))
+		f.enc.factAbout(r, Implies(And(Eq(App(SInt, "tag", args[0]), Zero), Not(Eq(App(SInt, "tag", args[1]), Zero))), Not(r)))
+		f.enc.factAbout(r, Implies(Eq(args[0], args[1]), r))
 	case "(*sync.Mutex).Lock", "(*sync.RWMutex).Lock", "(*sync.RWMutex).RLock":
 		f.lockOp(args[0], true, pos)
 	case "(*sync.Mutex).Unlock", "(*sync.RWMutex).Unlock", "(*sync.RWMutex).RUnlock":
@@ -191,12 +197,53 @@ func (f *Frame) callExtern(v ssa.Value, fn *ssa.Function, argVals []ssa.Value, a
 			f.oblige("lock", "user-code-called-unlocked", pos, T{fmt.Sprintf("(forall ((m!h Int)) (=> (select %s m!h) (select %s m!h)))", h.S, h0.S), SBool})
 		}
 		if f.checks("panic") {
-			f.oblige("reflect", "reflect.Call-args-match", pos, f.reflectCallOK(args))
+			vt := argVals[0].Type()
+			es := f.p.sortOf(vt)
+			inner := Select(f.stGet(f.p.sliceArray(vt), ArrSort(SInt, ArrSort(SInt, es))), SPtr(args[1]))
+			f.oblige("panic", "reflect.Call-args-match", pos, f.reflectCallOK([]T{args[0], args[1], inner}))
 		}
 		f.ghostInc("#res")
 		f.setResults(v, mkRes())
-	case "(reflect.Value).Interface", "(reflect.Value).Elem", "(reflect.Value).Index", "(reflect.Value).Len", "(reflect.Value).Field", "(reflect.Value).FieldByName", "(reflect.Value).IsNil", "(reflect.Value).NumMethod", "(reflect.Value).Method", "(reflect.Value).Type", "(reflect.Value).Set", "(reflect.Value).SetMapIndex", "(reflect.Value).MapIndex", "(reflect.Value).NumField":
-		if f.checks("panic") {
+	case "reflect.ValueOf":
+		// valid exactly for a non-nil interface argument
+		res := mkRes()
+		f.enc.factAbout(res[0], Eq(rvValid(f.enc, res[0]), Not(Eq(App(SInt, "tag", args[0]), Zero))))
+		f.setResults(v, res)
+	case "reflect.Zero":
+		f.oblige("panic", "reflect.Zero-nil-type", pos, Not(Eq(App(SInt, "tag", args[0]), Zero)))
+		res := mkRes()
+		f.enc.factAbout(res[0], And(rvValid(f.enc, res[0]), Eq(rvType(f.enc, res[0]), args[0])))
+		f.setResults(v, res)
+	case "(reflect.Value).CanSet", "(reflect.Value).CanInterface", "(reflect.Value).CanAddr":
+		// only a valid Value can be settable / addressable / interfaceable
+		fnn := f.enc.declFun("rv_"+sanitize(fn.Name()), []Sort{args[0].Sort}, SBool)
+		r := f.setVal(v, App(SBool, fnn, args[0]))
+		f.enc.factAbout(r, Implies(r, rvValid(f.enc, args[0])))
+	case "(reflect.Value).IsValid":
+		f.setVal(v, rvValid(f.enc, args[0]))
+	case "(reflect.Value).Type":
+		f.oblige("panic", "reflect.Value.Type-of-invalid", pos, rvValid(f.enc, args[0]))
+		r := f.setVal(v, rvType(f.enc, args[0]))
+		f.enc.factAbout(r, Implies(rvValid(f.enc, args[0]), Not(Eq(App(SInt, "tag", r), Zero))))
+	case "(reflect.Value).Interface":
+		// Interface panics on a Value obtained through an unexported struct field. Checked when the receiver comes
+		// straight from a struct-field accessor (the only source of such Values in this package); otherwise assumed.
+		if cl, ok := argVals[0].(*ssa.Call); ok && f.checks("panic") {
+			if cf := cl.Call.StaticCallee(); cf != nil {
+				switch cf.Name() {
+				case "FieldByName", "FieldByNameFunc", "Field", "FieldByIndex":
+					fnn := f.enc.declFun("rv_CanInterface", []Sort{args[0].Sort}, SBool)
+					f.oblige("panic", "reflect.Value.Interface-of-unexported-field", pos, App(SBool, fnn, args[0]))
+				}
+			}
+		}
+		f.enc.assumed[name+" assumed not to panic on Values not obtained from a struct-field accessor"] = true
+		f.setResults(v, mkRes())
+	case "(reflect.Value).Elem", "(reflect.Value).Index", "(reflect.Value).Len", "(reflect.Value).Field", "(reflect.Value).FieldByName", "(reflect.Value).IsNil", "(reflect.Value).NumMethod", "(reflect.Value).Method", "(reflect.Value).Set", "(reflect.Value).SetMapIndex", "(reflect.Value).MapIndex", "(reflect.Value).NumField":
+		if f.checks("panic") && !f.checks("reflect") {
+			f.enc.assumed[name+" assumed not to panic (kind preconditions of package reflect are not modelled)"] = true
+		}
+		if f.checks("reflect") {
 			fnn := f.enc.declFun("reflect_ok_"+sanitize(name), sortsOf(args), SBool)
 			f.oblige("reflect", "reflect:"+fn.Name(), pos, App(SBool, fnn, args...))
 		}
@@ -232,8 +279,20 @@ func sortsOf(ts []T) []Sort {
 	return out
 }
 
+// reflect.Value as an opaque value with two observers: validity and dynamic type
+func rvValid(e *Enc, v T) T {
+	e.declSortOf(v.Sort)
+	return App(SBool, e.declFun("rv_valid", []Sort{v.Sort}, SBool), v)
+}
+
+func rvType(e *Enc, v T) T {
+	e.declSortOf(v.Sort)
+	return App(SIface, e.declFun("rv_type", []Sort{v.Sort}, SIface), v)
+}
+
 func (f *Frame) reflectCallOK(args []T) T {
 	fn := f.enc.declFun("reflect_call_ok", sortsOf(args), SBool)
+	(&Translator{f: f}).installAutoLemmas("callok", fn)
 	return App(SBool, fn, args...)
 }
 
@@ -246,6 +305,12 @@ func externDoc(name string) string {
 	switch {
 	case name == "fmt.Errorf" || name == "errors.New":
 		return "returns a fresh non-nil error whose dynamic type is neither *Error nor Errors and whose chain holds no *Error"
+	case name == "reflect.ValueOf" || name == "reflect.Zero" || name == "(reflect.Value).IsValid" || name == "(reflect.Value).Type":
+		return "reflect.Value modelled by validity and dynamic type: ValueOf(x) is valid iff x is a non-nil interface; Zero(t) is valid with type t; Type panics on an invalid Value"
+	case name == "(reflect.Value).Call":
+		return "does not panic when the callee is valid, the argument count fits its type and every argument is valid and assignable to its parameter (contract axiom callOkDef); results unconstrained"
+	case name == "errors.Is":
+		return "deterministic in (err, target); false for a nil error against a non-nil target, true when err is the target itself"
 	case name == "errors.As":
 		return "finds the first *Error / Errors in the chain; exact when the error itself has the target type"
 	case name == "strconv.ParseInt" || name == "strconv.ParseFloat":
